@@ -14,8 +14,12 @@ pub mod ax {
     pub broadcast proof fn axiom_usize_into_usize(x: usize)
         ensures #[trigger] IntoSpec::<usize>::into_spec(x) == x, <usize as IntoSpec<usize>>::obeys_into_spec(),
     {}
+    #[verifier::external_body]
+    pub broadcast proof fn axiom_usize_obeys_into()
+        ensures #[trigger] <usize as IntoSpec<usize>>::obeys_into_spec(),
+    {}
 }
-broadcast use ax::axiom_usize_into_usize;
+broadcast use {ax::axiom_usize_into_usize, ax::axiom_usize_obeys_into, vstd::std_specs::hash::group_hash_axioms};
 
 //@item src/lib/vm.rs const MB
 //@item src/lib/arch.rs struct i8086
